@@ -14,6 +14,7 @@ import Ajson.Proofs.Views
 import Ajson.Proofs.CloneSound
 import Ajson.Proofs.Steps
 import Ajson.Proofs.UnpackCanon
+import Ajson.Proofs.CellsSteps
 
 namespace Ajson.Props.C06
 open Ajson Ajson.Heap
@@ -236,5 +237,17 @@ theorem C06_unpack_describes_the_same_children {h : Heap} (hs : Proofs.Struct h)
   · conv => lhs; unfold Proofs.absSorted
     have : h.typeOf n = .object := ht
     simp only [this]
+
+/-- **GetArray and GetObject describe the same children as GetIndex and GetKey — also when their cell was filled before an edit**:
+after any history of edit requests and reads in any order (`ReachedS`: edits, Clone, SetArray, SetObject, SetNode), from any sound heap whose container cells are right (every
+parsed heap: `CellsAll.of_empty`), `GetArray()` of an array answers the nodes under the keys 0, 1, … (what `GetIndex` finds, in
+order) and `GetObject()` of an object answers the children map (what `GetKey` finds): a cell filled by an earlier read is never
+stale, because each mutator empties the cell of every container whose children it changes (`Step.cells`) -/
+theorem C06_get_array_get_object_after_any_history {h h' : Heap} (hs : Proofs.Struct h) (hac : Proofs.Acyc h) (c : Proofs.CellsAll h)
+    (R : Proofs.ReachedS h h') (n : Nat) (hn : n < h'.size) :
+    (h'.typeOf n = .array → (h'.getArray (some n)).2 = .ok (Proofs.arrayIds (h'.childMap n))) ∧
+    (h'.typeOf n = .object → (h'.getObject (some n)).2 = .ok (h'.childMap n)) := by
+  obtain ⟨s', _, c'⟩ := Proofs.reachedS_sound R hs hac c
+  exact ⟨fun ht => Proofs.getArray_value s' c'.ok n hn ht, fun ht => Proofs.getObject_value s' c'.ok n hn ht⟩
 
 end Ajson.Props.C06
